@@ -5,7 +5,7 @@ CONSTANTS
   NodeRefs <- SynNodeRefs
   GhostNodes <- SynGhosts
   QueryTypes <- SynQueryTypes
-  ClassBits <- SynClassBits
+  MaskSets <- SynMasksQ
   HasSubtypeId <- HS
   Dev_IgnoreSubtypeFlag = FALSE
   Dev_DeleteLoop = TRUE
